@@ -12,6 +12,7 @@ import (
 	"io"
 	"net"
 	"net/http"
+	"net/http/httptest"
 	"net/url"
 	"sort"
 	"strings"
@@ -535,6 +536,107 @@ func runStack(w *world, ks []string, verbose bool, base map[behaviour]result, re
 	}
 }
 
+// ---- the same stacks in front of a MINIMAL ResponseWriter (no Flusher, Hijacker or CloseNotifier: what a
+// handler sees under HTTP/2, a recorder or any wrapper): a handler that probes for those capabilities and
+// then answers normally must come through exactly as it does without the stack.
+
+type plainWriter struct {
+	h    http.Header
+	code int
+	sent http.Header
+	body bytes.Buffer
+}
+
+func (p *plainWriter) Header() http.Header { return p.h }
+func (p *plainWriter) WriteHeader(c int) {
+	if c >= 100 && c < 200 {
+		return
+	}
+	if p.code == 0 {
+		p.code, p.sent = c, p.h.Clone()
+	}
+}
+func (p *plainWriter) Write(b []byte) (int, error) {
+	if p.code == 0 {
+		p.WriteHeader(200)
+	}
+	return p.body.Write(b)
+}
+
+func probingHandler(b behaviour, invoked *int) http.Handler {
+	return http.HandlerFunc(func(rw http.ResponseWriter, r *http.Request) {
+		*invoked++
+		// an upgrade attempt that must fail cleanly: nothing underneath can be hijacked
+		if hj, ok := rw.(http.Hijacker); ok {
+			if c, _, err := hj.Hijack(); err == nil && c != nil {
+				c.Close()
+				return
+			}
+		}
+		if cn, ok := rw.(http.CloseNotifier); ok { //nolint:staticcheck
+			_ = cn.CloseNotify()
+		}
+		if b.hdr == 1 {
+			rw.Header().Add("X-Multi", "one")
+			rw.Header().Add("X-Multi", "two")
+		}
+		if b.status != 0 {
+			rw.WriteHeader(b.status)
+		}
+		for _, p := range bodyParts(b.body) {
+			rw.Write([]byte(p))
+			if fl, ok := rw.(http.Flusher); ok {
+				fl.Flush()
+			}
+		}
+	})
+}
+
+func servePlain(h http.Handler) (pw *plainWriter, pan any) {
+	pw = &plainWriter{h: http.Header{}}
+	req := httptest.NewRequest("GET", "http://front.example/x", nil)
+	req.RemoteAddr = "192.0.2.1:1234"
+	func() {
+		defer func() { pan = recover() }()
+		h.ServeHTTP(pw, req)
+	}()
+	if pw.code == 0 && pan == nil {
+		pw.code, pw.sent = 200, pw.h.Clone()
+	}
+	return
+}
+
+func runPlainWriter(ks []string, verbose bool, rep *lib.Report) {
+	name := strings.Join(ks, ">")
+	for _, b := range behaviours() {
+		if b.mode != 0 || b.hdr > 1 {
+			continue
+		}
+		n0, n1 := 0, 0
+		want, _ := servePlain(probingHandler(b, &n0))
+		h, err := build(stackCfg{ks, -1, verbose}, probingHandler(b, &n1))
+		if err != nil {
+			return
+		}
+		got, pan := servePlain(h)
+		rep.Evaluations++
+		rep.Count("exchanges_on_a_minimal_writer")
+		what := map[string]any{"engine": "enum", "part": "c20", "stack": name, "verbose": verbose, "behaviour": b.String(), "mode": "minimal-writer"}
+		switch {
+		case pan != nil:
+			rep.Violate("C20:crash-on-minimal-writer", fmt.Sprintf("[%s] %v on a writer without Hijacker/Flusher/CloseNotifier: panic %v", name, b, pan), what)
+		case n1 != 1:
+			rep.Violate("C20:handler-invocations:minimal-writer", fmt.Sprintf("[%s] %v: handler invoked %d times", name, b, n1), what)
+		case got.code != want.code:
+			rep.Violate("C20:status-altered:minimal-writer", fmt.Sprintf("[%s] %v: status %d through the stack, %d from the bare handler", name, b, got.code, want.code), what)
+		case !bytes.Equal(got.body.Bytes(), want.body.Bytes()):
+			rep.Violate("C20:body-altered:minimal-writer", fmt.Sprintf("[%s] %v: body %.60q through the stack, %.60q from the bare handler", name, b, got.body.Bytes(), want.body.Bytes()), what)
+		case fmt.Sprint(got.sent["X-Multi"]) != fmt.Sprint(want.sent["X-Multi"]):
+			rep.Violate("C20:headers-altered:minimal-writer", fmt.Sprintf("[%s] %v: X-Multi %v through the stack, %v from the bare handler", name, b, got.sent["X-Multi"], want.sent["X-Multi"]), what)
+		}
+	}
+}
+
 func newWorld() *world {
 	clock.Freeze(clock.Date(2012, 3, 4, 5, 6, 7, 0, clock.UTC))
 	w := &world{arrived: make(chan struct{}, 1)}
@@ -574,9 +676,9 @@ func Run(tier string, sh lib.Shard, rep *lib.Report) {
 	rep.Bounds["stacks"] = len(ss)
 	rep.Bounds["max_depth"] = depth
 	rep.Bounds["handler_behaviours"] = len(behaviours())
-	rep.Rule = "every stack of depth <= max over {stream, trace, connlimit, ratelimit, cbreaker, roundrobin, rebalancer(roundrobin), buffer} x every handler behaviour (status incl. implicit x header set x body chunking, flush between writes, hijack) served by a real net/http server to a raw TCP client, compared with the bare handler on the same server; per stack and position one configuration in which exactly that middleware intervenes; non-trivial = exchanges through stacks of depth >= 2"
+	rep.Rule = "every stack of depth <= max over {stream, trace, connlimit, ratelimit, cbreaker, roundrobin, rebalancer(roundrobin), buffer} x every handler behaviour (status incl. implicit x header set x body chunking, flush between writes, hijack) served by a real net/http server to a raw TCP client, compared with the bare handler on the same server; every stack also in front of a minimal ResponseWriter (no Hijacker/Flusher/CloseNotifier) with a handler that probes for those capabilities; per stack and position one configuration in which exactly that middleware intervenes; non-trivial = exchanges through stacks of depth >= 2"
 	rep.Assume("frozen clock; Content-Length/Transfer-Encoding framing headers chosen by net/http are not compared unless the handler set Content-Length itself")
-	rep.Require("transparent_exchanges", "interventions_checked", "streamed_chunks_observed_early", "hijacked_exchanges", "early_hints_exchanges")
+	rep.Require("transparent_exchanges", "interventions_checked", "streamed_chunks_observed_early", "hijacked_exchanges", "early_hints_exchanges", "exchanges_on_a_minimal_writer")
 	w := newWorld()
 	defer w.srv.Close()
 	base := baseline(w, rep)
@@ -591,6 +693,7 @@ func Run(tier string, sh lib.Shard, rep *lib.Report) {
 		before := rep.Counters["transparent_exchanges"]
 		runStack(w, ks, false, base, rep)
 		runStack(w, ks, true, base, rep)
+		runPlainWriter(ks, false, rep)
 		if len(ks) >= 2 {
 			rep.Nontrivial += rep.Counters["transparent_exchanges"] - before
 		}
@@ -606,7 +709,11 @@ func Replay(rp map[string]any) (bool, string) {
 	w := newWorld()
 	defer w.srv.Close()
 	base := baseline(w, rep)
-	runStack(w, strings.Split(name, ">"), rp["verbose"] == true, base, rep)
+	if rp["mode"] == "minimal-writer" {
+		runPlainWriter(strings.Split(name, ">"), rp["verbose"] == true, rep)
+	} else {
+		runStack(w, strings.Split(name, ">"), rp["verbose"] == true, base, rep)
+	}
 	key, _ := rp["key"].(string)
 	for _, v := range rep.Violations {
 		if v.Key == key {
